@@ -10,9 +10,9 @@ use std::time::Instant;
 
 use serde_json::{json, Value};
 
-use crate::explore;
-use crate::oracle::{analyze, Analysis, Viol};
-use crate::world::*;
+use super::explore;
+use super::oracle::{analyze, Analysis, Viol};
+use super::world::*;
 
 pub type Extra = fn(&Scenario, &RunOut, &Analysis) -> Vec<Viol>;
 
